@@ -184,6 +184,71 @@ def scenario_members(repo, seed, tmpdir=None, committed=False):
     return sim, viols, None
 
 
+def scenario_members_follower(repo, seed, tmpdir=None):
+    """TWO membership entries about the SAME node (add d, then remove d) are appended and unapplied on a FOLLOWER when it
+    compacts: the member set of its snapshot is still the one of its position.  A follower gets into that state when the
+    entries reach it with a commit index below both of them - a leader elected after a restart starts from its stored,
+    older commit index; here the leader's real entries are delivered in one append_entries message whose commit_index is
+    the follower's own (added for seeded change C09-17: undoing pending changes in log order instead of backwards)."""
+    import pickle as _p
+    kw = {}
+    if tmpdir:
+        kw = {"journal_dir": tmpdir, "dump": True}
+    # 4 voters: {a,b,c,e}+d has a majority without the cut-off follower
+    sim = Sim(repo, ["a", "b", "c", "e"], seed=seed, conf={"dynamicMembershipChange": True, "useFork": False}, **kw)
+    sim.connect_all()
+    L = sim.elect()
+    if L is None:
+        return sim, [], "no leader"
+    for k in range(3):
+        sim.submit(L, "m%d" % k)
+    sim.run(8)
+    F = [j for j in sim.voters if j != L][-1]
+    others = [j for j in sim.voters if j != F]
+    if sim.objs[F].raftLastApplied != sim.objs[L].raftLastApplied:
+        return sim, [], "follower not up to date before the changes"
+    k0 = sim.objs[F].raftLastApplied
+    sim.cut(L, F)
+    for j in others:
+        if j != L:
+            sim.cut(j, F)
+    o = sim.objs[L]
+    for fn in (o.addNodeToCluster, o.removeNodeFromCluster):
+        sim._call(L, fn, sim.Node("d"), callback=lambda r, e: None)
+        sim.run(8, among=others)
+    lg = sim.log_of(L)
+    tail = [(cmd, idx, term) for (idx, term, cmd) in lg if idx > k0]
+    prev = [(idx, term) for (idx, term, cmd) in lg if idx == k0]
+    mem = [(idx, _p.loads(cmd[1:])[0]) for (cmd, idx, term) in tail if cmd[:1] == b"\x02"]
+    if [x[1] for x in mem] != ["add", "rem"] or not prev:
+        return sim, [], "leader did not accept add d and remove d (%s)" % mem
+    sim.inject(L, F, {"type": "append_entries", "term": o.raftCurrentTerm, "commit_index": k0, "entries": tail,
+                      "prevLogIdx": prev[0][0], "prevLogTerm": prev[0][1]})
+    f = sim.objs[F]
+    if sim.last_index(F) != tail[-1][1] or f.raftLastApplied != k0:
+        return sim, [], "follower did not store the entries unapplied"
+    sim.compact(F)
+    sim.tick(F, 0.0625)
+    sim.tick(F, 0.0625)
+    try:
+        data = sim.P(F, "serializer").deserialize()
+    except Exception:
+        data = None
+    if data is None:
+        return sim, [], "no snapshot"
+    k = data[1][1]
+    cluster = sorted(getattr(n, "id", n) for n in data[3])
+    if k != k0:
+        return sim, [], "snapshot not at the position before the two changes"
+    viols = []
+    if cluster != ["a", "b", "c", "e"]:
+        viols.append({"signature": "snapshot:member-set-not-at-its-position",
+                      "what": "follower %s took a snapshot at position %d with 'add d' at %d and 'rem d' at %d appended and unapplied; "
+                              "the snapshot stores member set %s, the commands up to %d define ['a', 'b', 'c', 'e']"
+                              % (F, k, mem[0][0], mem[1][0], cluster, k)})
+    return sim, viols, None
+
+
 def scenario_own_vs_installed(repo, seed, tmpdir=None, extra=8, then_elect=False):
     """A follower's OWN compaction is pending (started on one tick, completed on the next) when the leader's newer
     snapshot and further entries arrive in between: completing the own compaction must not touch the new log (its
@@ -362,6 +427,7 @@ def run(ctx):
                              ("members-pending", scenario_members),
                              ("members-applied", lambda r, s_, t: scenario_members(r, s_, t, committed=True)),
                              ("own-vs-installed", scenario_own_vs_installed),
+                             ("members-pending-follower", scenario_members_follower),
                              ("restore-removal", scenario_restore_removal)):
                 tmp = ctx.tmpdir() if mode == "file" else None
                 sim, v, note = fn(ctx.repo, sd, tmp)
@@ -386,6 +452,8 @@ def run(ctx):
         r["inconclusive"] = "no snapshot installed while an own compaction was pending"
     elif not any(s[0] == "members-pending" and s[2] for s in seen):
         r["inconclusive"] = "no snapshot taken while a membership entry was appended and unapplied"
+    elif not any(s[0] == "members-pending-follower" and s[2] for s in seen):
+        r["inconclusive"] = "no follower snapshot taken while add and remove of one node were appended and unapplied"
     return r
 
 
@@ -393,6 +461,7 @@ def replay(ctx, violation):
     rp = violation.get("replay", {})
     fns = {"blocked": scenario_blocked, "plain": scenario_plain, "members-pending": scenario_members,
            "own-vs-installed": scenario_own_vs_installed, "restore-removal": scenario_restore_removal,
+           "members-pending-follower": scenario_members_follower,
            "members-applied": lambda r, s_, t: scenario_members(r, s_, t, committed=True)}
     if rp.get("scenario") == "own-vs-installed-then-leader":
         sim, v, note = scenario_own_vs_installed(ctx.repo, rp.get("seed", 1), None, extra=rp.get("extra", 8), then_elect=True)
